@@ -195,7 +195,9 @@ func runC14(c *eng.Ctx, tier string) {
 	for _, f := range p.PkgFuncs("server") {
 		for _, a := range eng.FieldAccesses(f) {
 			if a.Write && a.Kind == "store" && eng.IsNamed(a.Field.Owner, "server", "Server") {
-				c.Check(eng.Outer(f) == newFn, "R-C14-4", f, a.In.Pos(), "write of Server."+a.Field.Name, "fields of server.Server are assigned only in New", "written in "+eng.FName(f))
+				// (New itself, or a helper only New calls: nothing is shared yet)
+				inNew := eng.Outer(f) == newFn || eng.HelperRoot(eng.Outer(f), func(x *ssa.Function) bool { return x == newFn }) == newFn
+				c.Check(inNew, "R-C14-4", f, a.In.Pos(), "write of Server."+a.Field.Name, "fields of server.Server are assigned only in New", "written in "+eng.FName(f))
 			}
 		}
 		eng.Instrs(f, func(in ssa.Instruction) {
